@@ -244,7 +244,9 @@ class GitDir(ControlDir):
         Returns:
             str: An available backup name.
         """
-        return osutils.available_backup_name(base, self.root_transport.has)
+        return osutils.available_backup_name(
+            base, lambda name: self.root_transport.has(urlutils.escape(name))
+        )
 
     def retire_controldir(self, limit=10000):
         """Permanently disable the controldir.
